@@ -125,6 +125,70 @@ def _res_and_then(eng, st, fr, t, args, dest, target):
     return v if v[0] == 'enum' else ERR(payload(eng, st, v, 'Err'))
 
 
+@model('std::option::Option::<T>::and_then')
+def _opt_and_then(eng, st, fr, t, args, dest, target):
+    vn, v = variant_of(eng, st, args[0], OPT)
+    if vn == 'Some':
+        eng.call_callable(st, args[1], [payload(eng, st, v, 'Some')], ('wrap', dest, target, lambda x: x))
+        return DEFER
+    return NONE
+
+
+@model('std::option::Option::<&T>::copied', 'std::option::Option::<&T>::cloned', 'std::option::Option::<&mut T>::copied',
+       'std::option::Option::<&mut T>::cloned')
+def _opt_copied(eng, st, fr, t, args, dest, target):
+    vn, v = variant_of(eng, st, args[0], OPT)
+    if vn != 'Some':
+        return NONE
+    pv = eng.force(st, payload(eng, st, v, 'Some'))
+    n = 0
+    while isinstance(pv, tuple) and pv and pv[0] == 'ref' and n < 3:
+        pv = eng.load(st, pv[1], pv[2])
+        n += 1
+    return SOME(pv)
+
+
+def _checked(op):
+    def m(eng, st, fr, t, args, dest, target):
+        a, b = eng.force(st, args[0]), eng.force(st, args[1])
+        ty = (t['callee'].get('decl') or '')
+        unsigned = '<impl u' in ty
+        if is_const(a) and is_const(b) and isinstance(cval(a), int) and isinstance(cval(b), int):
+            r = cval(a) - cval(b) if op == 'Sub' else cval(a) + cval(b)
+            if unsigned and r < 0:
+                return NONE
+            return SOME(C(a[1], r))
+        r = eng.binop(st, op, a, b)
+        if unsigned and op == 'Sub':
+            return ite(('bin', 'Ge', a, b), SOME(r), NONE)
+        return SOME(r)          # overflow of a wide integer is not modelled
+    return m
+
+
+import re as _re3
+for _w in ('u8', 'u16', 'u32', 'u64', 'usize', 'i8', 'i16', 'i32', 'i64', 'isize'):
+    MODELS[f'core::num::<impl {_w}>::checked_sub'] = _checked('Sub')
+    MODELS[f'std::num::<impl {_w}>::checked_sub'] = _checked('Sub')
+    MODELS[f'core::num::<impl {_w}>::checked_add'] = _checked('Add')
+    MODELS[f'std::num::<impl {_w}>::checked_add'] = _checked('Add')
+
+
+@model('core::slice::<impl [T]>::get', 'std::slice::<impl [T]>::get')
+def _slice_get(eng, st, fr, t, args, dest, target):
+    r, p = ptr_of(eng, st, args[0])
+    seq = eng.force(st, eng.load(st, r, p))
+    idx = eng.force(st, args[1])
+    if seq[0] in ('array', 'vec') and is_const(idx) and isinstance(cval(idx), int):
+        i = cval(idx)
+        if 0 <= i < len(seq[1]):
+            return SOME(mk_ref(r, p + (('idx', C('usize', i)),)))
+        return NONE
+    if seq[0] in ('array', 'vec'):
+        n = len(seq[1])
+        return ite(('bin', 'Lt', idx, C('usize', n)), SOME(('elem', seq, idx)), NONE)
+    return ('app', 'slice_get', (eng.purify(st, seq), eng.purify(st, idx)))
+
+
 @model('std::option::Option::<T>::map')
 def _opt_map(eng, st, fr, t, args, dest, target):
     vn, v = variant_of(eng, st, args[0], OPT)
